@@ -168,6 +168,42 @@ def kwargs_by_reference(run, hvsrpy):
         run.case(("kwargs-ref", str(rng_)))
 
 
+def zero_amplitude(run, hvsrpy):
+    """Amplitudes of exactly 0 are legal input (the constructor asks for >= 0).  In log space such a sample sits at minus infinity:
+    with it among the ACCEPTED windows the lognormal median of its column is 0 and the log-standard deviation is not a finite number
+    (never a finite value computed from some of the accepted windows); with it in a REJECTED window, or under the normal
+    assumption, it is a sample like any other."""
+    import warnings
+    f = np.array([1.0, 2.0, 3.0, 4.0, 5.0, 6.0])
+    rows = np.array([[1.0, 2.0, 3.0, 0.0, 1.0, 1.5], [1.0, 3.0, 2.0, 1.0, 1.0, 1.2], [1.0, 2.5, 3.0, 2.0, 1.0, 1.1], [1.5, 2.2, 3.3, 2.4, 1.0, 1.3], [1.1, 2.1, 3.4, 1.9, 1.2, 1.4]])
+    col = 3
+    for rejected in ((), (0,), (1,), (0, 2)):
+        obj = hvsrpy.HvsrTraditional(f, rows)
+        for w in rejected:
+            obj.valid_window_boolean_mask[w] = False
+            obj.valid_peak_boolean_mask[w] = False
+        acc = [w for w in range(len(rows)) if w not in rejected]
+        with warnings.catch_warnings():
+            warnings.simplefilter("ignore")
+            mean_l, std_l = obj.mean_curve("lognormal"), obj.std_curve("lognormal")
+            mean_n, std_n = obj.mean_curve("normal"), obj.std_curve("normal")
+            with np.errstate(divide="ignore", invalid="ignore"):
+                want_mean = np.exp(np.mean(np.log(rows[acc]), axis=0))
+                want_std = np.std(np.log(rows[acc]), axis=0, ddof=1)
+        others = [c for c in range(len(f)) if c != col]
+        ok = (np.allclose(mean_l[others], want_mean[others], rtol=1e-12) and np.allclose(std_l[others], want_std[others], rtol=1e-10)
+              and np.allclose(mean_n, np.mean(rows[acc], axis=0), rtol=1e-12) and np.allclose(std_n, np.std(rows[acc], axis=0, ddof=1), rtol=1e-10))
+        if 0 in acc:
+            ok = ok and mean_l[col] == 0.0 and not np.isfinite(std_l[col])
+        else:
+            ok = ok and np.isclose(mean_l[col], want_mean[col], rtol=1e-12) and np.isclose(std_l[col], want_std[col], rtol=1e-10)
+        if not ok:
+            run.violation("stat:zero-amplitude", f"windows {list(rejected)} rejected, window 0 is exactly 0 at {f[col]} Hz: lognormal mean curve {mean_l.tolist()}, "
+                          f"std curve {std_l.tolist()}; the estimators over the accepted windows {acc} give {want_mean.tolist()} / {want_std.tolist()}",
+                          dict(kind="zero-amp", rejected=list(rejected)))
+        run.case(("zero-amp", rejected))
+
+
 def main():
     run = Run("C05")
     hvsrpy = import_hvsrpy()
@@ -229,6 +265,7 @@ def main():
     run.notes["replay_manual_sessions"] = rpm.stats
     run.notes["accessor_comparisons"] = hook.n
     kwargs_by_reference(run, hvsrpy)
+    zero_amplitude(run, hvsrpy)
     return run.finish(
         rule="every transition of the exported HvsrObject graph (range updates, FDWRA, time-domain and manual "
              "rejection) replayed on real HvsrTraditional objects in 4 value encodings; in every state all statistic "
